@@ -2609,16 +2609,22 @@ class LinearOperator(object):
         """
         device, dtype = _to_helper(*args, **kwargs)
 
+        def _to(arg):
+            # index / mask tensors are moved but never cast to a floating dtype (as in type())
+            if torch.is_tensor(arg) and dtype is not None and arg.dtype.is_floating_point != dtype.is_floating_point:
+                return arg.to(device=device)
+            return arg.to(dtype=dtype, device=device)
+
         new_args = []
         new_kwargs = {}
         for arg in self._args:
             if hasattr(arg, "to"):
-                new_args.append(arg.to(dtype=dtype, device=device))
+                new_args.append(_to(arg))
             else:
                 new_args.append(arg)
         for name, val in self._kwargs.items():
             if hasattr(val, "to"):
-                new_kwargs[name] = val.to(dtype=dtype, device=device)
+                new_kwargs[name] = _to(val)
             else:
                 new_kwargs[name] = val
         return self.__class__(*new_args, **new_kwargs)
